@@ -6,6 +6,7 @@
 mod chunkcheck;
 mod exec;
 mod monitor;
+mod ops;
 mod panics;
 
 use serde_json::{Value, json};
@@ -18,7 +19,7 @@ fn set_limits() {
     let limit = std::env::var("KV_AS_LIMIT_GIB")
         .ok()
         .and_then(|s| s.parse::<u64>().ok())
-        .unwrap_or(6);
+        .unwrap_or(3);
     if limit > 0 {
         let lim = libc::rlimit {
             rlim_cur: limit * gib,
@@ -51,6 +52,10 @@ fn serve() {
         let mut resp = match op {
             "ping" => json!({"pong": true}),
             "exec" => exec::exec(&exec::ExecRequest::from_json(&req)),
+            "tokens" => ops::tokens(req["src"].as_str().unwrap_or("")),
+            "format" => ops::format(req["src"].as_str().unwrap_or(""), &req["options"]),
+            "parse" => ops::parse(req["src"].as_str().unwrap_or(""), &req["options"]),
+            "prelude" => ops::prelude(),
             "opcodes" => {
                 let counts = monitor::opcode_counts();
                 json!({"opcodes": counts.iter().map(|(n, c)| json!([n, c])).collect::<Vec<_>>()})
